@@ -54,6 +54,8 @@ uint64_t vs_event_hash(void);
 long vs_switches(void);
 void vs_dump_events(FILE* f);
 void vs_dump_schedule(FILE* f);  // space separated tids
+long vs_schedule_len(void);
+int vs_schedule_at(long i);
 long vs_fault_count(int reason); // how many scheduler events of that reason
 long vs_preempts_fired(void);
 long vs_stalls_fired(void);
@@ -70,11 +72,14 @@ int  vs_guards_count(void);
 const char* vs_static_name(int i);        // demangled, shortened
 // re-hash all initialised statics; returns index of first changed static or -1
 int  vs_statics_check(void);
+void vs_statics_check_note(long step);     // same, remembers the first mutation (callable from simulated threads)
+int  vs_first_mutation(long* step);        // index of first mutated static or -1
 // guard accounting violations: -1 none, else guard id (double init / abort / unbalanced)
 int  vs_guard_violation(char* buf, int buflen);
 uint64_t vs_statics_final_hash(void);     // hash over (name, bytes) of all initialised statics
 int  vs_statics_initialised(void);
-void vs_dump_statics(FILE* f);            // name + byte hash per initialised static
+void vs_dump_statics(FILE* f);
+uint64_t vs_static_hash_at(int i);           // 0 = not initialised            // name + byte hash per initialised static
 
 // ---- rand seam -------------------------------------------------------------
 void vs_rand_mode(int seeded, uint64_t seed);
